@@ -5,7 +5,7 @@
 From Coq Require Import ZArith List Bool Reals.
 From QP Require Import Cx Apply Gates Rsem.
 From QPM Require Import Transpile.
-From QPG Require Import qulacsconv cirqconv braketconv qiskitconv.
+From QPG Require Import qulacsconv cirqconv braketconv qiskitconv qasmconv stimconv.
 From QP Require Import Local.
 Import ListNotations.
 
@@ -151,3 +151,34 @@ Proof.
     eapply opequiv_trans; [exact L|]. apply opequiv_sym, rsem_unit; assumption.
 Qed.
 Print Assumptions qiskit_convert_gate_sound.
+
+(* ------------------------------------------------------------------ OpenQASM 3 exporter and Stim converter (named gates) *)
+(* qasm_conv / stim_conv: the stdgates.inc mnemonic (resp. Stim gate name) written for every modelled kind, with its
+   parameter and operand order, obtained by symbolic evaluation of the exporters; the mnemonics / names are read through
+   contracts validated on every run (qiskit.qasm3 parser, stim.Tableau.from_named_gate) *)
+Theorem qasm_conv_rows_ok : forallb conv_ok qasm_conv = true.
+Proof. vm_compute. reflexivity. Qed.
+
+(* every modelled kind is either exported or rejected with an error (SqrtXdag, SqrtY, SqrtYdag) *)
+Theorem qasm_conv_total_or_rejected :
+  forallb (fun k => existsb (fun e => gkind_eqb k (fst e)) qasm_conv || existsb (gkind_eqb k) qasm_rejected) all_kinds = true.
+Proof. vm_compute. reflexivity. Qed.
+
+Theorem stim_conv_rows_ok : forallb conv_ok stim_conv = true.
+Proof. vm_compute. reflexivity. Qed.
+
+Theorem qasm_and_stim_exported_gate_sound :
+  forall k g, In (k, g) (qasm_conv ++ stim_conv) ->
+  forall theta pi, (forall a b : nat, pi a = pi b -> a = b) ->
+  lsem (rsem (inst theta pi g)) ≃ lsem (rsem (inst theta pi (canon k))).
+Proof.
+  intros k g Hin theta pi Hpi.
+  assert (H : conv_ok (k, g) = true).
+  { apply in_app_or in Hin. destruct Hin as [Hin|Hin].
+    - pose proof qasm_conv_rows_ok as H. rewrite forallb_forall in H. apply H, Hin.
+    - pose proof stim_conv_rows_ok as H. rewrite forallb_forall in H. apply H, Hin. }
+  cbn in H. apply andb_true_iff in H as [H H3]. apply andb_true_iff in H as [H1 H2].
+  pose proof (tmpl_sound theta pi Hpi (seq 0 (arity k)) [g] (canon k) H1) as T.
+  simpl in T. rewrite H2 in T. specialize (T eq_refl H3). exact T.
+Qed.
+Print Assumptions qasm_and_stim_exported_gate_sound.
